@@ -39,12 +39,21 @@ class Loopback:
         self.reply: Callable[[str, str], Any] = lambda method, path: {}
         self._runner: Optional[web.AppRunner] = None
         self.port = 0
+        self.drop_next = 0
+        self.dropped = 0
 
     async def _handle(self, request: web.Request) -> web.Response:
         body = await request.read()
         rec = Received(request.method, request.raw_path,
                        [(k.decode("latin-1"), v.decode("latin-1")) for k, v in request.raw_headers], body)
         self.requests.append(rec)
+        if self.drop_next > 0:
+            # the request was received, the connection dies before any reply is written
+            self.drop_next -= 1
+            self.dropped += 1
+            if request.transport is not None:
+                request.transport.close()
+            return web.Response(status=500)
         payload = self.reply(request.method, rec.path)
         if isinstance(payload, tuple):
             status, payload = payload
